@@ -36,6 +36,11 @@ func makeC06(seed uint64) *c06Case {
 	// the injection is chosen by the seed (runC06 hands out seeds that rotate through all of
 	// them); base programs are drawn until one has a place for it
 	want := int(seed % uint64(progs.NumInjections))
+	if cs.opts.NoEmbedIDL && r.Chance(1, 2) {
+		// without the embedded IDL a file may have nothing at all to generate: half of these runs
+		// get such a file (instead of the injection whose turn it is)
+		want = progs.InjectionIndex("file-that-renders-nothing")
+	}
 	for try := 0; try < 40 && cs.inj.Name == ""; try++ {
 		cfg := c06Config(r)
 		if try > 0 && try%2 == 1 {
